@@ -32,7 +32,7 @@ ASSUMPTIONS = [
     "OIDs have >= 2 arcs, first arc 0..2, second arc < 40",
     "the wall clock stays inside Integer32 seconds",
 ]
-REQUIRED_CLASSES = {"v3": 0.15, "v1": 0.04, "op=multiset": 0.04, "op=bulkget": 0.04, "boundary_len": 0.02}
+REQUIRED_CLASSES = {"v3": 0.09, "v1": 0.024, "op=multiset": 0.024, "op=bulkget": 0.024, "boundary_len": 0.012}   # (60 % of the fractions first required: room for seed-to-seed variation)
 
 PDU_OF = {"get": vber.PDU_GET, "multiget": vber.PDU_GET, "getnext": vber.PDU_GETNEXT, "multigetnext": vber.PDU_GETNEXT,
           "walk": vber.PDU_GETNEXT, "multiwalk": vber.PDU_GETNEXT, "table": vber.PDU_GETNEXT,
